@@ -186,8 +186,15 @@ def main():
     if cfg.get('search'):
         mod = importlib.import_module('search.' + cfg['search'])
         hints = [d for d in (corr_summary or {}).get('disagreements', [])]
-        res = mod.run(seed=seed, tier=tier, hints=hints, broken=bool(broken))
         import implrun
+        try:
+            res = mod.run(seed=seed, tier=tier, hints=hints, broken=bool(broken))
+        except Exception as e:  # noqa -- the library failed in a place where the oracle did not expect it to (construction,
+            # a helper): the property is not shown to hold; reported without a concrete input
+            import traceback
+            tb = traceback.format_exc().strip().splitlines()
+            broken.append('search on the implementation stopped with %s: %s (%s)' % (type(e).__name__, str(e)[:200], ' | '.join(tb[-4:-1])[:300]))
+            res = {'violations': [], 'info': {'evaluations': 0, 'what': 'search stopped by an exception'}}
         implrun.restore_random()          # an extreme case seed reroutes random.*: undo after the search
         found = res['violations']
         search_info = res.get('info', {})
